@@ -2,6 +2,7 @@ import PharmpyModel.Core.Sexp
 import PharmpyModel.C13.Reader
 import PharmpyModel.C13.ModelLevel
 import PharmpyModel.C13.History
+import PharmpyModel.C13.WriteCode
 open Pharmpy Pharmpy.C13
 
 def bad : Sexp := .list [.atom "err", .atom "bad-op"]
@@ -100,6 +101,17 @@ def handle (req : Sexp) : Sexp :=
         | .setData _ _ => false
       .list [.atom (if failed then "FileExistsError" else "ok"), stateS (hstep (fs, st) op)]
     | _, _, _ => bad
+  | .list [.atom "ignchar", .atom label] =>
+    match ignoreCharFromHeader label.toList with
+    | some c => .list [.atom "ok", strS [c]]
+    | none => .list [.atom "err", .atom "IndexError"]
+  | .list [.atom "genignore", fr] =>
+    match frame? fr with
+    | some f =>
+      (match generatedIgnore f with
+       | some c => .list [.atom "ok", strS [c], Sexp.ofBool (isComment c (headerLine f))]
+       | none => .list [.atom "err", .atom "IndexError"])
+    | none => bad
   | .list [.atom "render", fr] =>
     match frame? fr with
     | some f => strS (renderCsv f)
